@@ -1,7 +1,7 @@
 """
 C11 - Stream writes arrive in order, each byte once, and close waits for the buffer.
 
-The real `TCPServer` (one or two accepted connections), `TCPClient`, `UNIXClient` and `File`
+The real `TCPServer` (one to three accepted connections, each with its own writes and close request), `TCPClient`, `UNIXClient` and `File`
 components are driven in-process: real `write` / `close` events and real poller `_write`
 events, flushed to quiescence after every op.  What is substituted (from outside, no hooks):
 
@@ -168,6 +168,16 @@ def make_poller():
 # endpoints: drive the real components
 # ---------------------------------------------------------------------------------------
 
+class Trace(list):
+    """the events observed on one connection; `foreign` = positions of the events that happened
+    while the op being executed was addressed to ANOTHER connection of the same component"""
+
+    def __init__(self, *a):
+        super().__init__(*a)
+        self.foreign = set()
+        self.multi = (0, False)
+
+
 class Endpoint:
     """one real component with `nconn` stream endpoints"""
 
@@ -218,7 +228,7 @@ class Endpoint:
         del self.cap.log[:]
         for d in self.doubles:
             del d.log[:]
-        self.traces = [[] for _ in self.doubles]
+        self.traces = [Trace() for _ in self.doubles]
 
     def handle(self, i):
         return self.doubles[i]
@@ -270,6 +280,8 @@ class Endpoint:
                 evs[j].append(('!', repr(args[:2])))
         evs[i].append(('b', 1 if self.interest(i) else 0))
         for j in evs:
+            if j != i:
+                self.traces[j].foreign.update(range(len(self.traces[j]), len(self.traces[j]) + len(evs[j])))
             self.traces[j].extend(evs[j])
         return evs
 
@@ -418,8 +430,34 @@ def run_impl(case):
             for j in evs:
                 if j != i and evs[j]:
                     perop[j].append(('foreign', evs[j]))
+        # measured for the evidence: how many deferred closes were pending together, and whether
+        # they completed in another order than they were requested
+        req_order, done_order, maxpend = [], [], 0
+        seen = [0] * nconn
+        has_cr = [False] * nconn
+        has_x = [False] * nconn
+
+        def watch():
+            nonlocal maxpend
+            pend = 0
+            for j, tr in enumerate(ep.traces):
+                for r in tr[seen[j]:]:
+                    if r[0] == 'cr':
+                        has_cr[j] = True
+                    elif r[0] == 'x':
+                        has_x[j] = True
+                seen[j] = len(tr)
+                if has_cr[j] and not has_x[j] and ep.interest(j):
+                    pend += 1
+                    if j not in req_order:
+                        req_order.append(j)
+                elif has_x[j] and j in req_order and j not in done_order:
+                    done_order.append(j)
+            maxpend = max(maxpend, pend)
         for op in case['ops']:
             do(op[0], op[1:])
+            if nconn > 1:
+                watch()
         if case.get('drain', True):
             # the poller reports an endpoint writable as long as it is registered as a writer
             for i in range(nconn):
@@ -427,6 +465,9 @@ def run_impl(case):
                 while ep.interest(i) and n < 64:
                     do(i, ['p', 'a', BIG])
                     n += 1
+                    if nconn > 1:
+                        watch()
+        ep.traces[0].multi = (maxpend, done_order != [j for j in req_order if j in done_order])
         return lines, perop, ep.traces
     finally:
         ep.teardown()
@@ -441,7 +482,12 @@ def classify(case, conn, trace, clause):
         pending = b''
         accepted = b''
         last_transient = None
-        for rec in trace:
+        foreign = getattr(trace, 'foreign', ())
+        for pos, rec in enumerate(trace):
+            if rec[0] == 'x' and pending and pos in foreign:
+                # closed with bytes pending while the component was handling an op of another
+                # connection (whatever happened on this one before)
+                return f'close-before-drain({kind},during-op-of-other-connection)'
             if rec[0] == 'w':
                 pending += payload_of(rec[1])
             elif rec[0] == 'r' and rec[1] in TRANSIENT:
@@ -571,8 +617,10 @@ def evaluate(ctx, cases):
                 clause = verdict.split()[1]
                 small = case
                 prelim = sig = classify(case, i, tr, clause)
-                if _budget[0] > 0:
-                    # minimise, then classify the minimal case (the classifier looks at what is left)
+                if _budget[0] > 0 or (clause, prelim) not in _sigmap:
+                    # minimise, then classify the minimal case (the classifier looks at what is left);
+                    # a preliminary signature not seen before is always minimised (there are only
+                    # kinds x shapes x errnos of them), repeats only while the budget lasts
                     _budget[0] -= 1
                     small = minimise(ctx, case, clause)
                     try:
@@ -593,6 +641,12 @@ def evaluate(ctx, cases):
                 raise Infra(f'spec answer {verdict!r}')
             has_partial = any(r[0] == 'a' for r in tr) and any(r[0] == 'r' for r in tr)
             nontrivial = nontrivial or has_partial or ('x' in names and 'a' in names)
+        if len(traces) > 1:
+            maxpend, crossed = traces[0].multi
+            ctx.count('connections', len(traces))
+            ctx.count('deferred-closes-pending-together', maxpend)
+            if maxpend >= 2:
+                ctx.count('branch', 'deferred-closes-complete-' + ('out-of-request-order' if crossed else 'in-request-order'))
         ctx.count('kind', case['kind'])
         ctx.count('ops', min(len(case['ops']) // 4 * 4, 40))
         ctx.case(case if len(str(case)) < 2000 else {'kind': case['kind'], 'note': 'large case', 'nops': len(case['ops'])},
@@ -665,7 +719,17 @@ def random_case(rng, kind, big, nconn=1):
     if rng.random() < 0.15:
         ops.append(['w', '7a7a'])
         ops.append(['p', 'a', BIG])
-    return {'kind': kind, 'nconn': nconn, 'ops': [[rng.randrange(nconn)] + o for o in ops]}
+    if nconn == 1:
+        return {'kind': kind, 'nconn': nconn, 'ops': [[0] + o for o in ops]}
+    # several connections: the ops above are dealt out at random; the close request (if any) goes
+    # to one connection, and every OTHER connection gets a close request of its own at a random
+    # position with probability 0.7 - deferred closes of several connections are pending together
+    out = [[rng.randrange(nconn)] + o for o in ops]
+    owners = {o[0] for o in out if o[1] == 'c'}
+    for i in range(nconn):
+        if i not in owners and rng.random() < 0.7:
+            out.insert(rng.randint(0, len(out)), [i, 'c'])
+    return {'kind': kind, 'nconn': nconn, 'ops': out}
 
 
 def random_cases(ctx):
@@ -676,8 +740,73 @@ def random_cases(ctx):
     for kind in KINDS:
         for _ in range(per_kind):
             cases.append(random_case(rng, kind, big))
-    for _ in range(60 * ctx.scale):
-        cases.append(random_case(rng, 'server', big, nconn=2))
+    for k in range(60 * ctx.scale):
+        cases.append(random_case(rng, 'server', big, nconn=2 if k % 3 else 3))
+    return cases
+
+
+# several connections of one Server, each with its own close request ------------------------------
+
+ROLES = ('D', 'L', 'N', 'I')
+#  D  writes, then close while everything is still buffered (deferred close)
+#  L  writes, part of it is accepted, then close (deferred close, requested late)
+#  N  writes, no close request at all (must stay open and keep its bytes)
+#  I  close requested with an empty buffer (immediate), written to afterwards
+
+
+def crossed_case(roles, req_order, drain_order, variant):
+    """Directed: every connection gets its writes (and close request) in `req_order`, all of them
+    are then held back by partial accepts / transient refusals so that the close requests are
+    pending AT THE SAME TIME, and finally they are allowed to drain one after the other in
+    `drain_order` - while the others keep seeing partial accepts.  Deterministic."""
+    n = len(roles)
+    ops = []
+    npay = {}
+    for k, i in enumerate(req_order):
+        r = roles[i]
+        if r == 'I':
+            ops.append([i, 'c'])
+            ops.append([i, 'w', hx(bytes([0x49, 0x30 + i]))])
+            npay[i] = 0
+            continue
+        cnt = 1 + (i + k + variant) % 3
+        npay[i] = cnt
+        for q in range(cnt):
+            if variant % 2 and q == 0:
+                ops.append([i, 'wp', 4097, 16 * i + variant])
+            else:
+                ops.append([i, 'w', hx(bytes([0x41 + 8 * i + q] * (2 + q + i)))])
+        if r == 'L':
+            ops.append([i, 'p', 'a', 1])
+        if r in 'DL':
+            ops.append([i, 'c'])
+    # hold everybody back: nothing may be closed, nothing lost
+    for i in range(n):
+        ops.append([i, 'p', 'r', TRANSIENT[(i + variant) % 3]])
+        ops.append([i, 'p', 'a', 1])
+    # drain in the given order; after each step of the draining connection the others move a little
+    for i in drain_order:
+        for q in range(npay[i] + 1):
+            ops.append([i, 'p', 'a', BIG])
+            for j in range(n):
+                if j != i:
+                    ops.append([j, 'p', 'a', (q + j + variant) % 2])
+    return {'kind': 'server', 'nconn': n, 'ops': ops}
+
+
+def directed_cases(ctx):
+    """Same list in both tiers and for every seed."""
+    cases = []
+    for n in (2, 3):
+        conns = list(range(n))
+        for roles in itertools.product(ROLES, repeat=n):
+            if sum(r in 'DL' for r in roles) < 2 and not (n == 2 and sum(r in 'DL' for r in roles) == 1):
+                continue
+            v = 0
+            for req in itertools.permutations(conns):
+                for dr in itertools.permutations(conns):
+                    cases.append(crossed_case(roles, list(req), list(dr), v))
+                    v += 1
     return cases
 
 
@@ -700,7 +829,11 @@ def run(ctx):
                 'close, writable with accept 0/1/all, EAGAIN, EINTR, ENOBUFS, EPIPE, ECONNRESET, for each of TCPServer '
                 'connection, TCPClient, File; random: 1-12 payloads (0..3, 4095-4097, 64 KiB, 256 KiB bytes), 30% '
                 'partial / 15% transient / 5% fatal outcomes, close at a random position, writes after close, all four kinds incl. UNIXClient, two '
-                'interleaved server connections; huge: 256 KiB (quick) / 2 MiB (thorough) payloads; every case ends with the poller '
+                'or three interleaved server connections, each with its own close request (70%); directed (both tiers, every seed): 2 and 3 '
+                'connections of one TCPServer, every assignment of roles (close while all is buffered / close after a partial send / '
+                'no close / close before the write) with at least two (one for 2 connections) deferred closes, every order of the '
+                'requests x every order in which the connections are allowed to drain, the others held back by partial accepts '
+                'and transient refusals; huge: 256 KiB (quick) / 2 MiB (thorough) payloads; every case ends with the poller '
                 'reporting writable while writer interest lasts. non-trivial = a trace with accepted bytes and a refusal, or '
                 'accepted bytes and a close; distinct = distinct case')
     ctx.trusted += ['socket double: send accepts a prefix or raises OSError(errno); a closed socket raises EBADF; '
@@ -714,7 +847,8 @@ def run(ctx):
                         'errno numbers are those of this platform (Linux)']
     params(ctx)
     corpus = ctx.corpus()
-    groups = [('corpus', corpus), ('exhaustive', exhaustive_cases(ctx)), ('huge', huge_cases(ctx)), ('random', random_cases(ctx))]
+    groups = [('corpus', corpus), ('directed', directed_cases(ctx)), ('exhaustive', exhaustive_cases(ctx)),
+              ('huge', huge_cases(ctx)), ('random', random_cases(ctx))]
     ctx.exhaustive = False
     for name, cases in groups:
         for i in range(0, len(cases), 300):
